@@ -132,4 +132,367 @@ theorem decode_writes_in_bounds (src : List Nat) (tg : Tgt) (h0 : tg.writes = []
     intro t e'; cases e'
     exact ⟨rfl, by intro w hw; rw [h0] at hw; cases hw⟩) tg' e
 
+/-! ### decoding the encoder's output -/
+
+set_option linter.unusedSimpArgs false
+
+theorem rd_wr (t : Tgt) (i j c : Nat) : (t.wr i c).rd j = if j = i ∧ i < t.size then c else t.rd j := by
+  unfold Tgt.rd Tgt.wr Tgt.size
+  simp only [List.getD_eq_getElem?_getD, List.getElem?_set]
+  by_cases h : i = j
+  · subst h
+    by_cases h2 : i < t.cells.length
+    · simp [h2]
+    · simp [h2]
+  · have : ¬ j = i := fun e => h e.symm
+    simp [h, this]
+
+theorem step0 (x : Nat) (hx : x < 64) (r : List Nat) (ti : Nat) (tg : Tgt) (h : ti < tg.size) :
+    decGo (b64char x :: r) 0 ti (some tg) = decGo r 1 ti (some (tg.wr ti (x * 4))) := by
+  have h1 := b64char_not_space_pad x hx
+  have h2 := b64index_b64char x hx
+  rw [decGo]
+  simp [h1.1, h1.2.1, h2, Nat.not_le.mpr h]
+
+theorem step1 (x : Nat) (hx : x < 64) (r : List Nat) (ti : Nat) (tg : Tgt) (h : ti + 1 < tg.size) :
+    decGo (b64char x :: r) 1 ti (some tg) =
+      decGo r 2 (ti + 1) (some ((tg.wr ti (tg.rd ti ||| x / 16)).wr (ti + 1) ((x % 16) * 16))) := by
+  have h1 := b64char_not_space_pad x hx
+  have h2 := b64index_b64char x hx
+  rw [decGo]
+  simp [h1.1, h1.2.1, h2, Nat.not_le.mpr h]
+
+theorem step2 (x : Nat) (hx : x < 64) (r : List Nat) (ti : Nat) (tg : Tgt) (h : ti + 1 < tg.size) :
+    decGo (b64char x :: r) 2 ti (some tg) =
+      decGo r 3 (ti + 1) (some ((tg.wr ti (tg.rd ti ||| x / 4)).wr (ti + 1) ((x % 4) * 64))) := by
+  have h1 := b64char_not_space_pad x hx
+  have h2 := b64index_b64char x hx
+  rw [decGo]
+  simp [h1.1, h1.2.1, h2, Nat.not_le.mpr h]
+
+theorem step3 (x : Nat) (hx : x < 64) (r : List Nat) (ti : Nat) (tg : Tgt) (h : ti < tg.size) :
+    decGo (b64char x :: r) 3 ti (some tg) = decGo r 0 (ti + 1) (some (tg.wr ti (tg.rd ti ||| x))) := by
+  have h1 := b64char_not_space_pad x hx
+  have h2 := b64index_b64char x hx
+  rw [decGo]
+  simp [h1.1, h1.2.1, h2, Nat.not_le.mpr h]
+
+theorem stepPad (r : List Nat) (st ti : Nat) (t : Option Tgt) : decGo (pad64 :: r) st ti t = .pad r st ti t := by
+  rw [decGo]
+  simp [pad64, isspaceC]
+
+/-- the post-processing of `decode` after the main loop -/
+def finish : DecOut → Int × Option Tgt
+  | .err t' => (-1, t')
+  | .eos st ti t' => (if st ≠ 0 then -1 else (ti : Int), t')
+  | .pad r st ti t' => (decTail r st ti t', t')
+
+theorem decode_eq_finish (src : List Nat) (t : Option Tgt) : decode src t = finish (decGo src 0 0 t) := by
+  unfold decode finish
+  cases decGo src 0 0 t <;> rfl
+
+theorem size_wr (t : Tgt) (i c : Nat) : (t.wr i c).size = t.size := Tgt.size_wr t i c
+
+def t1 (tg : Tgt) (ti x : Nat) : Tgt := tg.wr ti (x * 4)
+def t2 (tg : Tgt) (ti x : Nat) : Tgt := (tg.wr ti (tg.rd ti ||| x / 16)).wr (ti + 1) ((x % 16) * 16)
+def t3 (tg : Tgt) (ti x : Nat) : Tgt := (tg.wr ti (tg.rd ti ||| x / 4)).wr (ti + 1) ((x % 4) * 64)
+def t4 (tg : Tgt) (ti x : Nat) : Tgt := tg.wr ti (tg.rd ti ||| x)
+
+/-- the state of the target after the decoder consumed the encoding of `bs` starting in state 0 at `tarindex = ti` -/
+theorem decGo_encText : ∀ (bs : List Nat) (ti : Nat) (tg : Tgt), (∀ b ∈ bs, b < 256) → ti + bs.length + 1 ≤ tg.size →
+    ∃ tg', finish (decGo (encText bs) 0 ti (some tg)) = (((ti + bs.length : Nat) : Int), some tg') ∧ tg'.size = tg.size ∧
+      (∀ j, j < ti → tg'.rd j = tg.rd j) ∧ (∀ j, j < bs.length → tg'.rd (ti + j) = bs.getD j 0)
+  | [], ti, tg, _, _ => by
+    refine ⟨tg, ?_, rfl, fun _ _ => rfl, ?_⟩
+    · simp [encText, decGo, finish]
+    · intro j hj; simp at hj
+  | [a], ti, tg, hb, hs => by
+    have ha : a < 256 := hb a (by simp)
+    simp only [List.length_singleton] at hs
+    have h0 : ti < tg.size := by omega
+    have h1 : ti + 1 < tg.size := by omega
+    have n1 : ¬ ti = ti + 1 := by omega
+    have n3 : ¬ ti + 1 = ti := by omega
+    obtain ⟨hx0, hx1, _, _, ea, _, _⟩ := group_inverts a 0 0 ha (by omega) (by omega)
+    have e1 : a % 4 * 16 + 0 / 16 = a % 4 * 16 := by omega
+    rw [e1] at hx1 ea
+    have hz : (a % 4 * 16) % 16 * 16 = 0 := by omega
+    simp only [encText]
+    generalize a / 4 = x0 at *
+    generalize a % 4 * 16 = x1 at *
+    refine ⟨t2 (t1 tg ti x0) ti x1, ?_, ?_, ?_, ?_⟩
+    · rw [step0 _ hx0 _ _ _ h0, step1 _ hx1 _ _ _ (by simpa [size_wr] using h1), stepPad]
+      simp [finish, decTail, pad64, isspaceC, tail3, rd_wr, size_wr, h0, h1, n1, n3, hz, t1, t2]
+    · simp [size_wr, t1, t2]
+    · intro j hj
+      have : ¬ j = ti := by omega
+      have : ¬ j = ti + 1 := by omega
+      simp [rd_wr, t1, t2, *]
+    · intro j hj
+      have : j = 0 := by simp at hj; omega
+      subst this
+      simp [rd_wr, size_wr, h0, h1, n1, n3, ea, t1, t2]
+  | [a, b], ti, tg, hb, hs => by
+    have ha : a < 256 := hb a (by simp)
+    have hb' : b < 256 := hb b (by simp)
+    simp only [List.length_cons, List.length_nil] at hs
+    have h0 : ti < tg.size := by omega
+    have h1 : ti + 1 < tg.size := by omega
+    have h2 : ti + 1 + 1 < tg.size := by omega
+    have n1 : ¬ ti = ti + 1 := by omega
+    have n2 : ¬ ti = ti + 1 + 1 := by omega
+    have n3 : ¬ ti + 1 = ti := by omega
+    have n4 : ¬ ti + 1 = ti + 1 + 1 := by omega
+    have n5 : ¬ ti + 1 + 1 = ti := by omega
+    have n6 : ¬ ti + 1 + 1 = ti + 1 := by omega
+    obtain ⟨hx0, hx1, hx2, _, ea, eb, _⟩ := group_inverts a b 0 ha hb' (by omega)
+    have e2 : b % 16 * 4 + 0 / 64 = b % 16 * 4 := by omega
+    rw [e2] at hx2 eb
+    have hz : (b % 16 * 4) % 4 * 64 = 0 := by omega
+    simp only [encText]
+    generalize a / 4 = x0 at *
+    generalize a % 4 * 16 + b / 16 = x1 at *
+    generalize b % 16 * 4 = x2 at *
+    refine ⟨t3 (t2 (t1 tg ti x0) ti x1) (ti + 1) x2, ?_, ?_, ?_, ?_⟩
+    · rw [step0 _ hx0 _ _ _ h0, step1 _ hx1 _ _ _ (by simpa [size_wr] using h1),
+        step2 _ hx2 _ _ _ (by simpa [size_wr] using h2), stepPad]
+      simp [finish, decTail, tail3, rd_wr, size_wr, h0, h1, h2, n1, n2, n3, n4, n5, n6, hz, t1, t2, t3]
+      try omega
+    · simp [size_wr, t1, t2, t3]
+    · intro j hj
+      have : ¬ j = ti := by omega
+      have : ¬ j = ti + 1 := by omega
+      have : ¬ j = ti + 1 + 1 := by omega
+      simp [rd_wr, t1, t2, t3, *]
+    · intro j hj
+      have : j = 0 ∨ j = 1 := by simp at hj; omega
+      rcases this with e | e <;> subst e
+      · simp [rd_wr, size_wr, h0, h1, h2, n1, n2, n3, n4, n5, n6, ea, t1, t2, t3]
+      · simp [rd_wr, size_wr, h0, h1, h2, n1, n2, n3, n4, n5, n6, eb, t1, t2, t3]
+  | a :: b :: c :: rest, ti, tg, hb, hs => by
+    have ha : a < 256 := hb a (by simp)
+    have hb' : b < 256 := hb b (by simp)
+    have hc : c < 256 := hb c (by simp)
+    have hrest : ∀ x ∈ rest, x < 256 := fun x hx => hb x (by simp [hx])
+    simp only [List.length_cons] at hs
+    have h0 : ti < tg.size := by omega
+    have h1 : ti + 1 < tg.size := by omega
+    have h2 : ti + 1 + 1 < tg.size := by omega
+    have n1 : ¬ ti = ti + 1 := by omega
+    have n2 : ¬ ti = ti + 1 + 1 := by omega
+    have n3 : ¬ ti + 1 = ti := by omega
+    have n4 : ¬ ti + 1 = ti + 1 + 1 := by omega
+    have n5 : ¬ ti + 1 + 1 = ti := by omega
+    have n6 : ¬ ti + 1 + 1 = ti + 1 := by omega
+    obtain ⟨hx0, hx1, hx2, hx3, ea, eb, ec⟩ := group_inverts a b c ha hb' hc
+    have hget : ∀ j, (a :: b :: c :: rest).getD (j + 3) 0 = rest.getD j 0 := by intro j; simp
+    have hg0 : (a :: b :: c :: rest).getD 0 0 = a := by simp
+    have hg1 : (a :: b :: c :: rest).getD 1 0 = b := by simp
+    have hg2 : (a :: b :: c :: rest).getD 2 0 = c := by simp
+    simp only [encText, List.length_cons]
+    generalize a / 4 = x0 at *
+    generalize a % 4 * 16 + b / 16 = x1 at *
+    generalize b % 16 * 4 + c / 64 = x2 at *
+    generalize c % 64 = x3 at *
+    obtain ⟨tg', hfin, hsz, hlow, hval⟩ := decGo_encText rest (ti + 3)
+      (t4 (t3 (t2 (t1 tg ti x0) ti x1) (ti + 1) x2) (ti + 1 + 1) x3)
+      hrest (by simp [size_wr, t1, t2, t3, t4]; omega)
+    refine ⟨tg', ?_, ?_, ?_, ?_⟩
+    · rw [step0 _ hx0 _ _ _ h0, step1 _ hx1 _ _ _ (by simpa [size_wr] using h1),
+        step2 _ hx2 _ _ _ (by simpa [size_wr] using h2), step3 _ hx3 _ _ _ (by simpa [size_wr] using h2)]
+      show finish (decGo (encText rest) 0 (ti + 1 + 1 + 1) (some (t4 (t3 (t2 (t1 tg ti x0) ti x1) (ti + 1) x2) (ti + 1 + 1) x3))) = _
+      rw [show ti + 1 + 1 + 1 = ti + 3 from rfl, hfin]
+      congr 2
+      omega
+    · rw [hsz]; simp [size_wr, t1, t2, t3, t4]
+    · intro j hj
+      rw [hlow j (by omega)]
+      have : ¬ j = ti := by omega
+      have : ¬ j = ti + 1 := by omega
+      have : ¬ j = ti + 1 + 1 := by omega
+      simp [rd_wr, t1, t2, t3, t4, *]
+    · intro j hj
+      by_cases hj3 : j < 3
+      · have hjj : j = 0 ∨ j = 1 ∨ j = 2 := by omega
+        rw [hlow (ti + j) (by omega)]
+        rcases hjj with e | e | e <;> subst e
+        · rw [hg0]; simp [rd_wr, size_wr, t1, t2, t3, t4, h0, h1, h2, n1, n2, n3, n4, n5, n6, ea]
+        · rw [hg1]; simp [rd_wr, size_wr, t1, t2, t3, t4, h0, h1, h2, n1, n2, n3, n4, n5, n6, eb]
+        · rw [hg2]; simp [rd_wr, size_wr, t1, t2, t3, t4, h0, h1, h2, n1, n2, n3, n4, n5, n6, ec]
+      · have := hval (j - 3) (by omega)
+        have e : ti + 3 + (j - 3) = ti + j := by omega
+        rw [e] at this
+        rw [this, ← hget (j - 3)]
+        congr 1
+        omega
+
+theorem take_eq_of_rd (cells bs : List Nat) (h : bs.length ≤ cells.length)
+    (hv : ∀ j, j < bs.length → cells.getD j 0 = bs.getD j 0) : cells.take bs.length = bs := by
+  apply List.ext_getElem
+  · simp; omega
+  · intro i h1 h2
+    have hi : i < bs.length := by simpa using h2
+    have := hv i hi
+    simp only [List.getD_eq_getElem?_getD] at this
+    rw [List.getElem?_eq_getElem (by omega), List.getElem?_eq_getElem hi] at this
+    simpa using this
+
+/-- P0 `base64_roundtrip`: decoding the encoder's text into any target of at least `n + 1` bytes (what the XML importer passes)
+    returns `n`, leaves the `n` original bytes at the start of the target, and keeps the target's size -/
+theorem decode_encText (bs : List Nat) (tg : Tgt) (hb : ∀ b ∈ bs, b < 256) (hs : bs.length + 1 ≤ tg.size) :
+    ∃ tg', decode (encText bs) (some tg) = ((bs.length : Int), some tg') ∧ tg'.size = tg.size ∧
+      tg'.cells.take bs.length = bs := by
+  obtain ⟨tg', h1, h2, _, h4⟩ := decGo_encText bs 0 tg hb (by omega)
+  refine ⟨tg', ?_, h2, ?_⟩
+  · rw [decode_eq_finish, h1]; simp
+  · apply take_eq_of_rd
+    · have : tg'.cells.length = tg.cells.length := h2
+      have : tg.cells.length = tg.size := rfl
+      omega
+    · intro j hj
+      have := h4 j hj
+      simpa [Tgt.rd] using this
+
+/-! ### the encoder on a large enough target -/
+
+theorem writes_wr (t : Tgt) (i c : Nat) : (t.wr i c).writes = i :: t.writes := rfl
+
+/-- the encoder loops on a large enough target: `datalength` advances by the encoded length, the text is stored at
+    `dl ..`, nothing below `dl` is touched, and exactly one store is made per character -/
+theorem encGo_spec : ∀ (bs : List Nat) (dl : Nat) (t : Tgt), dl + encodedLength bs.length ≤ t.size →
+    ∃ t', encGo bs dl t = (true, dl + encodedLength bs.length, t') ∧ t'.size = t.size ∧
+      (∀ j, j < dl → t'.rd j = t.rd j) ∧ (∀ j, j < encodedLength bs.length → t'.rd (dl + j) = (encText bs).getD j 0) ∧
+      t'.writes.length = t.writes.length + encodedLength bs.length
+  | [], dl, t, _ => ⟨t, by simp [encGo, encodedLength], rfl, fun _ _ => rfl, by simp [encodedLength], by simp [encodedLength]⟩
+  | [a], dl, t, h => by
+    have e : encodedLength [a].length = 4 := by simp [encodedLength]
+    rw [e] at h ⊢
+    have h0 : dl < t.size := by omega
+    have h1 : dl + 1 < t.size := by omega
+    have h2 : dl + 2 < t.size := by omega
+    have h3 : dl + 3 < t.size := by omega
+    refine ⟨_, by simp [encGo, Nat.not_lt.mpr h]; rfl, by simp [size_wr], ?_, ?_, by simp [writes_wr]⟩
+    · intro j hj
+      have : ¬ j = dl := by omega
+      have : ¬ j = dl + 1 := by omega
+      have : ¬ j = dl + 2 := by omega
+      have : ¬ j = dl + 3 := by omega
+      simp [rd_wr, *]
+    · intro j hj
+      have : j = 0 ∨ j = 1 ∨ j = 2 ∨ j = 3 := by omega
+      rcases this with e | e | e | e <;> subst e <;> simp [rd_wr, size_wr, encText, h0, h1, h2, h3]
+  | [a, b], dl, t, h => by
+    have e : encodedLength [a, b].length = 4 := by simp [encodedLength]
+    rw [e] at h ⊢
+    have h0 : dl < t.size := by omega
+    have h1 : dl + 1 < t.size := by omega
+    have h2 : dl + 2 < t.size := by omega
+    have h3 : dl + 3 < t.size := by omega
+    refine ⟨_, by simp [encGo, Nat.not_lt.mpr h]; rfl, by simp [size_wr], ?_, ?_, by simp [writes_wr]⟩
+    · intro j hj
+      have : ¬ j = dl := by omega
+      have : ¬ j = dl + 1 := by omega
+      have : ¬ j = dl + 2 := by omega
+      have : ¬ j = dl + 3 := by omega
+      simp [rd_wr, *]
+    · intro j hj
+      have : j = 0 ∨ j = 1 ∨ j = 2 ∨ j = 3 := by omega
+      rcases this with e | e | e | e <;> subst e <;> simp [rd_wr, size_wr, encText, h0, h1, h2, h3]
+  | a :: b :: c :: rest, dl, t, h => by
+    have e : encodedLength (a :: b :: c :: rest).length = 4 + encodedLength rest.length := by
+      simp [encodedLength]; omega
+    rw [e] at h ⊢
+    have h0 : dl < t.size := by omega
+    have h1 : dl + 1 < t.size := by omega
+    have h2 : dl + 2 < t.size := by omega
+    have h3 : dl + 3 < t.size := by omega
+    obtain ⟨t', hgo, hsz, hlow, hval, hw⟩ := encGo_spec rest (dl + 4)
+      ((((t.wr dl (b64char (a / 4))).wr (dl + 1) (b64char ((a % 4) * 16 + b / 16))).wr (dl + 2)
+        (b64char ((b % 16) * 4 + c / 64))).wr (dl + 3) (b64char (c % 64))) (by simp [size_wr]; omega)
+    refine ⟨t', ?_, by rw [hsz]; simp [size_wr], ?_, ?_, ?_⟩
+    · rw [encGo]
+      simp only [Nat.not_lt.mpr (show dl + 4 ≤ t.size by omega), if_false]
+      rw [hgo]
+      congr 2
+      omega
+    · intro j hj
+      rw [hlow j (by omega)]
+      have : ¬ j = dl := by omega
+      have : ¬ j = dl + 1 := by omega
+      have : ¬ j = dl + 2 := by omega
+      have : ¬ j = dl + 3 := by omega
+      simp [rd_wr, *]
+    · intro j hj
+      by_cases hj4 : j < 4
+      · rw [hlow (dl + j) (by omega)]
+        have : j = 0 ∨ j = 1 ∨ j = 2 ∨ j = 3 := by omega
+        rcases this with e | e | e | e <;> subst e <;> simp [rd_wr, size_wr, encText, h0, h1, h2, h3]
+      · have := hval (j - 4) (by omega)
+        have e2 : dl + 4 + (j - 4) = dl + j := by omega
+        rw [e2] at this
+        rw [this]
+        have : j = (j - 4) + 4 := by omega
+        rw [this]
+        simp [encText]
+    · rw [hw]; simp [writes_wr]; omega
+
+/-- P0: on a target of `4*((n+2)/3) + 1` bytes or more the encoder succeeds, returns `4*((n+2)/3)`, stores the text followed by a
+    NUL, and performs exactly `4*((n+2)/3) + 1` stores; on a smaller target it returns −1 -/
+theorem encode_spec (bs : List Nat) (t : Tgt) (h0 : t.writes = []) (h : encodedLength bs.length + 1 ≤ t.size) :
+    ∃ t', encode bs t = ((encodedLength bs.length : Int), t') ∧ t'.size = t.size ∧
+      t'.cells.take (encodedLength bs.length + 1) = encText bs ++ [0] ∧ t'.writes.length = encodedLength bs.length + 1 := by
+  obtain ⟨t1, hgo, hsz, _, hval, hw⟩ := encGo_spec bs 0 t (by omega)
+  refine ⟨t1.wr (encodedLength bs.length) 0, ?_, by simp [size_wr, hsz], ?_, by simp [writes_wr, hw, h0]⟩
+  · unfold encode
+    rw [hgo]
+    simp only [Nat.zero_add]
+    rw [if_neg (by omega)]
+  · have hlen : (encText bs ++ [0]).length = encodedLength bs.length + 1 := by simp [encText_length]
+    rw [← hlen]
+    apply take_eq_of_rd
+    · rw [hlen]
+      have : (t1.wr (encodedLength bs.length) 0).cells.length = t.size := by
+        have := size_wr t1 (encodedLength bs.length) 0
+        unfold Tgt.size at this hsz ⊢; omega
+      omega
+    · intro j hj
+      rw [hlen] at hj
+      have hsz1 : encodedLength bs.length < t1.size := by omega
+      by_cases hjl : j < encodedLength bs.length
+      · have := hval j hjl
+        rw [Nat.zero_add] at this
+        have hne : ¬ j = encodedLength bs.length := by omega
+        have h2 : (t1.wr (encodedLength bs.length) 0).rd j = t1.rd j := by simp [rd_wr, hne]
+        have h3 : (encText bs ++ [0]).getD j 0 = (encText bs).getD j 0 := by
+          simp only [List.getD_eq_getElem?_getD]
+          rw [List.getElem?_append_left (by rw [encText_length]; exact hjl)]
+        show (t1.wr (encodedLength bs.length) 0).rd j = _
+        rw [h2, this, h3]
+      · have : j = encodedLength bs.length := by omega
+        subst this
+        show (t1.wr (encodedLength bs.length) 0).rd _ = _
+        have h3 : (encText bs ++ [0]).getD (encodedLength bs.length) 0 = 0 := by
+          simp only [List.getD_eq_getElem?_getD]
+          rw [List.getElem?_append_right (by rw [encText_length]; omega)]
+          simp [encText_length]
+        rw [h3]
+        simp [rd_wr, hsz1]
+
+/-- encode then decode: the text stored by the encoder (without its NUL), fed to the decoder with a target of `n + 1` bytes or
+    more, gives the original bytes back -/
+theorem decode_encode (bs : List Nat) (hb : ∀ b ∈ bs, b < 256) (t tg : Tgt) (h0 : t.writes = [])
+    (ht : encodedLength bs.length + 1 ≤ t.size) (hs : bs.length + 1 ≤ tg.size) :
+    ∃ t' tg', encode bs t = ((encodedLength bs.length : Int), t') ∧
+      decode (t'.cells.take (encodedLength bs.length)) (some tg) = ((bs.length : Int), some tg') ∧
+      tg'.cells.take bs.length = bs := by
+  obtain ⟨t', he, _, htake, _⟩ := encode_spec bs t h0 ht
+  obtain ⟨tg', hd, _, hbs⟩ := decode_encText bs tg hb hs
+  refine ⟨t', tg', he, ?_, hbs⟩
+  have : t'.cells.take (encodedLength bs.length) = encText bs := by
+    have := congrArg (List.take (encodedLength bs.length)) htake
+    rw [List.take_take, Nat.min_eq_left (by omega)] at this
+    rw [this, List.take_append_of_le_length (by rw [encText_length]; omega)]
+    rw [List.take_of_length_le (by rw [encText_length]; omega)]
+  rw [this, hd]
+
 end Hw.B64
